@@ -80,6 +80,20 @@ UndeclCases ==
   {[fam |-> "undecl", ph |-> "case", lang |-> "exe", form |-> hd \o <<"{">> \o s \o <<"}">>, sep |-> "sp", nm |-> 0] :
       s \in VarSites, hd \in { <<>>, <<"query">>, <<"query", "(", "$", "a", ":", "String", ")">>, <<"mutation">> }}
 
+\* ---------------------------------------------------------------- family tail
+\* inputs whose last byte, inside a list or an argument, can neither start a value nor close what is open: with a reader
+\* that delivers its final byte TOGETHER with io.EOF (the worker tries every fault mode at every offset) the readers are
+\* at the end of the input with that byte still to be looked at
+TailEnds == { <<")">>, <<"(">>, <<"@">>, <<"!">>, <<":">>, <<"=">>, <<"|">>, <<"&">>, <<"tru", ")">>, <<"1", ",", "2", ")">> }
+TailCases ==
+  {[fam |-> "tail", ph |-> "case", lang |-> "val", form |-> pre \o e, sep |-> "sp", nm |-> 0] :
+      pre \in { <<"[">>, <<"[", "[">>, <<"{", "a", ":">>, <<"{", "a", ":", "[">> }, e \in TailEnds}
+  \cup {[fam |-> "tail", ph |-> "case", lang |-> "exe", form |-> pre \o e, sep |-> "sp", nm |-> 0] :
+      pre \in { <<"{", "a", "(", "x", ":", "[">>, <<"{", "a", "(", "x", ":">>, <<"query", "(", "$", "v", ":", "Int", "=", "[">>, <<"{", "a", "@", "skip", "(", "if", ":", "[">> },
+      e \in TailEnds}
+  \cup {[fam |-> "tail", ph |-> "case", lang |-> "sdl", form |-> pre \o e, sep |-> "sp", nm |-> 0] :
+      pre \in { <<"type", "Query", "{", "a", "(", "x", ":", "Int", "=", "[">>, <<"directive", "@", "d", "(", "x", ":", "In", "=", "{", "a", ":">> }, e \in TailEnds}
+
 \* ---------------------------------------------------------------- family refl
 \* how an argument is written in each state; "omit" writes nothing
 ArgText(n, st) ==
@@ -197,6 +211,7 @@ PickLang == /\ cs.ph = "fam"
                \/ cs.fam = "vars" /\ cs' \in VarCases
                \/ cs.fam = "refl" /\ cs' \in ReflCases
                \/ cs.fam = "undecl" /\ cs' \in UndeclCases
+               \/ cs.fam = "tail" /\ cs' \in TailCases
 
 Grow == /\ cs.ph = "grow"
         /\ \/ Len(cs.form) < AllLen /\ \E k \in Core[cs.lang] : cs' = [cs EXCEPT !.form = Append(@, k)]
